@@ -7,6 +7,7 @@ CONSTANTS
   Sigs = {"KILL", "HUP", "TSTP", "CONT"}
   JobsOpts = {"", "-l", "-p"}
   KillLNums = {}
+  MonCmds = {}
   FgSlots = {}
   StartWith = "p3"
 VIEW view
